@@ -35,8 +35,9 @@ func (c *c20Case) request() *Request {
 	switch c.Capability {
 	case "no-permit":
 		rq.Sack.Permit = false
-	case "plain-ack":
-		destKind = "plain-ack"
+	case "plain-ack", "plain-ack-empty", "plain-ack-ts":
+		destKind = c.Capability
+		rq.Sack.TS = c.Capability == "plain-ack-ts"
 	case "closed":
 		rq.Sack.NoListen = true
 	case "no-synack":
@@ -74,6 +75,7 @@ func checkC20(t *testing.T, c *c20Case, rec *Recorder) []Diff {
 		rec.Case(scenarioKey(c), true, c, append(labels, "other:never-ends")...)
 		return []Diff{{"C08", "run-never-ends", "request stopped by the harness watchdog (endless or spinning run)"}, {"C20", "never-ends", fmt.Sprintf("method %q against capability %s never came to an outcome (stopped by the harness watchdog)", c.Method, c.Capability)}}
 	}
+	ds = append(ds, worldProblems(o.World, "C20")...)
 	if o.Panic != "" || o.Deadlock != "" || o.Wire == nil {
 		add("crash", "crashed: %s%s", o.Panic, o.Deadlock)
 		rec.Case(scenarioKey(c), true, c, labels...)
@@ -102,8 +104,9 @@ func checkC20(t *testing.T, c *c20Case, rec *Recorder) []Diff {
 		firedOnSack = c.Method == "sack" || c.Method == "prefer_sack"
 	}
 	// "ACKs lacking SACK blocks" only shows when a probe actually reaches the target
-	plainAckSeen := c.Capability == "plain-ack" && c.DestDist <= c.MaxTTL
-	sackAvailable := c.Capability == "ok" || c.Capability == "ok-ts" || (c.Capability == "plain-ack" && !plainAckSeen)
+	isPlain := strings.HasPrefix(c.Capability, "plain-ack")
+	plainAckSeen := isPlain && c.DestDist <= c.MaxTTL
+	sackAvailable := c.Capability == "ok" || c.Capability == "ok-ts" || (isPlain && !plainAckSeen)
 	unavailable := c.Capability == "no-permit" || plainAckSeen || c.Capability == "closed"
 	wrapsSentinel := func() bool {
 		for _, s := range o.Wire.Fired {
@@ -207,11 +210,11 @@ func checkC20(t *testing.T, c *c20Case, rec *Recorder) []Diff {
 }
 
 var c20Methods = []string{"", "syn", "sack", "prefer_sack", "fin"}
-var c20Caps = []string{"ok-ts", "ok", "no-permit", "plain-ack", "closed", "no-synack"}
+var c20Caps = []string{"ok-ts", "ok", "no-permit", "plain-ack", "plain-ack-empty", "plain-ack-ts", "closed", "no-synack"}
 var c20Faults = []string{"", "filter1", "filter2", "send", "read", "srcfactory", "sinkfactory"}
 
 func TestC20Table(t *testing.T) {
-	rec := NewRecorder("C20", "C20Table", "full table: method {\"\", syn, sack, prefer_sack, unknown} x target capability {SACK-permitted with/without timestamps, no SACK-permitted, ACKs lacking SACK blocks, port closed (real ECONNREFUSED on loopback), handshake never captured} x injected non-capability failure {none, first filter, second filter, send, read, source factory, sink factory} x e2e probes {0, 2 (only without injected failure)} x 2 TTL ranges, through RunTraceroute with a real loopback listener; oracle: policy table over probe kinds on the wire, accepted connections and the error chain; exhaustive over the table; non-trivial = method sack/prefer_sack with a non-happy capability or an injected failure")
+	rec := NewRecorder("C20", "C20Table", "full table: method {\"\", syn, sack, prefer_sack, unknown} x target capability {SACK-permitted with/without timestamps, no SACK-permitted, ACKs lacking SACK blocks (no option / SACK option with zero blocks / timestamp option only), port closed (real ECONNREFUSED on loopback), handshake never captured} x injected non-capability failure {none, first filter, second filter, send, read, source factory, sink factory} x e2e probes {0, 2 (only without injected failure)} x 2 TTL ranges, through RunTraceroute with a real loopback listener; oracle: policy table over probe kinds on the wire, accepted connections and the error chain; exhaustive over the table; non-trivial = method sack/prefer_sack with a non-happy capability or an injected failure")
 	rec.Exhaustive = true
 	RunCases(t, rec, func(yield func(*c20Case) bool) {
 		for _, m := range c20Methods {
